@@ -4,13 +4,14 @@ import Py4hwV.Net.IR
      wires <w0,w1,...>                                           widths by wire id
      leaf <kind> | cfg | st0 | ins | inls | outs | outls | <p><c>   (appended; ids by order)
      order <ids>        driver <enable or _> | <ids>       begin   (power-up + construction-time propagateAll)
-     poke <w> <v>       clk <n>       prop        settle-check
+     cons <w> <v> (construction-time put, before begin)   poke <w> <v>       clk <n>       prop        settle-check
      vals  -> all wire values          prepared -> number of prepared wires     clks -> total_clks
      st <k> -> state of leaf k -/
 open Proto Net
 structure Sess where
   nl : Netlist := { widths := [], leaves := [], order := [], drivers := [] }
   s  : Option (State LSt) := none
+  cons : List (Nat × Int) := []
 
 def words (s : String) : List String := (s.splitOn " ").filter (· ≠ "")
 
@@ -25,7 +26,11 @@ def step (ss : Sess) (line : String) : Sess × String :=
     | ["order"] => ({ ss with nl := { ss.nl with order := [] } }, "ok")
     | ["reset"] => ({}, "ok")
     | ["cleardrivers"] => ({ ss with nl := { ss.nl with drivers := [] } }, "ok")
-    | ["begin"] => ({ ss with s := some (Net.init ss.nl.design ss.nl.st0) }, "ok")
+    | ["begin"] => ({ ss with s := some (Net.initC ss.nl.design ss.nl.st0 ss.cons) }, "ok")
+    | ["cons", w, v] =>
+      match w.toNat?, v.toInt? with
+      | some w, some v => ({ ss with cons := ss.cons ++ [(w, v)] }, "ok")
+      | _, _ => (ss, "bad-op")
     | ["poke", w, v] =>
       match ss.s, w.toNat?, v.toInt? with
       | some s, some w, some v => ({ ss with s := some (putW ss.nl.design s (w, v)) }, "ok")
